@@ -179,6 +179,11 @@ class HarnessError(Exception):
     pass
 
 
+class CorruptOperand(Exception):
+    """An arith op inside a program received a value that is not a legal value of the operand type. All arith
+    results are checked (and repaired), the arguments are ours: only value passing / control flow can do this."""
+
+
 def _int_bits(v, w, what):
     if type(v) not in (int, bool) or not (-(1 << (w - 1)) <= v < (1 << w)):
         raise HarnessError(f"{what}: {v!r} is not an in-range int for width {w}")
@@ -359,15 +364,15 @@ class Oracle:
             w = self.width(op.operands[0].type)
             a, b = (int(x) & ((1 << w) - 1) for x in inputs)
             canonical = all(x == S(x, w) for x in inputs)
-            if (p in (6, 7, 8, 9) and canonical and (S(a, w) < 0) != (S(b, w) < 0)
+            if (p in (6, 7, 8, 9) and (S(a, w) < 0) != (S(b, w) < 0)
                     and bool(g) == bool(refsem.CMPI[p - 4](a, b, w))):
                 return "cmpi-unsigned-uses-signed"
             pyop = [lambda x, y: x == y, lambda x, y: x != y, lambda x, y: x < y, lambda x, y: x <= y,
                     lambda x, y: x > y, lambda x, y: x >= y][p if p < 6 else p - 4]
-            if (not canonical and all(type(x) is bool for x in inputs if x != S(x, w))
-                    and bool(g) == bool(pyop(inputs[0], inputs[1]))):
-                # the only non-canonical operands are python bools (what the interpreter's own cmpi returns for a
-                # true i1) and the answer is what comparing the raw python values gives
+            if not canonical and w == 1 and bool(g) == bool(pyop(inputs[0], inputs[1])):
+                # i1 operands, one of them is the +1 spelling of "true" (the python True that the interpreter's own
+                # cmpi/cmpf return, possibly passed through `shrsi x, 0` as int 1) next to the signed-canonical -1 of
+                # arith.constant true / addi / ..., and the answer is what comparing the raw python values gives
                 return "cmpi-compares-python-representation"
             if canonical:
                 return f"wrong-result:arith.cmpi:{CMPI_NAMES[p]}"
@@ -1306,7 +1311,10 @@ class Monitor:
         self.executed.add(name)
         if not name.startswith("arith."):
             return real(op, inputs)
-        ref = O.ref(op, inputs)
+        try:
+            ref = O.ref(op, inputs)
+        except HarnessError as e:
+            raise CorruptOperand(str(e)) from None
         if ref[0] in ("poison", "undef"):
             # the reference result is poison / UB: the real impl is not run at all (x << 2**40 would allocate),
             # any value refines poison
@@ -1440,6 +1448,10 @@ def run_program(E, R, O, text, rows, prog_id):
             continue
         except HarnessError:
             raise
+        except CorruptOperand as e:
+            ctl = "+".join(sorted(n for n in mon.executed if not n.startswith("arith.")))
+            R.viol(f"program-corrupt-operand:{ctl}", f"value passing delivered an illegal operand: {e}", wit)
+            continue
         except Exception as e:  # noqa: BLE001 - python exception on a program with a defined result
             tb = e.__traceback__
             while tb.tb_next is not None:
@@ -1561,7 +1573,7 @@ def finish(agg, tier):
     labels = sorted(agg.sets.get("impl_labels", ()))
     if not labels:
         inc.append("no impl function of the interpreter function classes was found")
-    never = [lab for lab in labels if c.get("reach:" + lab, 0) < (20 if q else 200)]
+    never = [lab for lab in labels if c.get("reach:" + lab, 0) < (200 if q else 2000)]
     if never:
         inc.append("impl functions reached too rarely: " + ", ".join(never[:8]))
     for anchor, need in (("anchor:to_signed", 10000), ("anchor:Interpreter.run_op", 10000),
